@@ -521,6 +521,61 @@ impl<T> RawTable<T> {
         None
     }
 
+    // -- the rest of hashbrown's safe lookup/removal surface (same code as the real crate's
+    //    one-line wrappers), so that a griddle that starts using them still compiles
+    pub fn get(&self, hash: u64, eq: impl FnMut(&T) -> bool) -> Option<&T> {
+        match self.find(hash, eq) {
+            Some(bucket) => Some(unsafe { bucket.as_ref() }),
+            None => None,
+        }
+    }
+    pub fn get_mut(&mut self, hash: u64, eq: impl FnMut(&T) -> bool) -> Option<&mut T> {
+        match self.find(hash, eq) {
+            Some(bucket) => Some(unsafe { bucket.as_mut() }),
+            None => None,
+        }
+    }
+    pub fn remove_entry(&mut self, hash: u64, eq: impl FnMut(&T) -> bool) -> Option<T> {
+        match self.find(hash, eq) {
+            Some(bucket) => Some(unsafe { self.remove(bucket).0 }),
+            None => None,
+        }
+    }
+    pub fn erase_entry(&mut self, hash: u64, eq: impl FnMut(&T) -> bool) -> bool {
+        if let Some(bucket) = self.find(hash, eq) {
+            unsafe { self.erase(bucket) };
+            true
+        } else {
+            false
+        }
+    }
+    pub fn insert_entry(&mut self, hash: u64, value: T, hasher: impl Fn(&T) -> u64) -> &mut T {
+        unsafe { self.insert(hash, value, hasher).as_mut() }
+    }
+    pub fn try_insert_no_grow(&mut self, hash: u64, value: T) -> Result<Bucket<T>, T> {
+        unsafe {
+            if self.buckets == 0 {
+                return Err(value);
+            }
+            let tomb = self.meets_tombstone();
+            if !tomb && self.growth_left == 0 {
+                return Err(value);
+            }
+            let i = self.choose_free_slot();
+            Ok(self.insert_at(i, tomb, hash, value))
+        }
+    }
+    pub fn clear_no_drop_pub(&mut self) {
+        self.clear_no_drop()
+    }
+    pub unsafe fn is_bucket_full(&self, index: usize) -> bool {
+        index < self.buckets && (*self.slot(index)).full
+    }
+    pub unsafe fn bucket(&self, index: usize) -> Bucket<T> {
+        assert!(index < self.buckets, "[ghost] bucket(): index out of range");
+        Bucket { slot: nn(self.slot(index)), index }
+    }
+
     #[inline]
     pub fn capacity(&self) -> usize {
         self.items + self.growth_left
@@ -712,14 +767,27 @@ impl<T> Clone for RawIter<T> {
 }
 
 impl<T> RawIter<T> {
-    /// Transliteration of hashbrown's `reflect_toggle_full(b, false)`. The real code
-    /// compares element pointers, which decrease as the bucket index grows, and for a
-    /// zero-sized `T` every bucket has the *same* element pointer; both are kept.
+    /// hashbrown: `reflect_remove` — to be called *before* the bucket is vacated.
     pub unsafe fn reflect_remove(&mut self, b: &Bucket<T>) {
+        self.reflect_toggle_full(b, false)
+    }
+
+    /// hashbrown: `reflect_insert` — to be called *after* the bucket was filled.
+    pub unsafe fn reflect_insert(&mut self, b: &Bucket<T>) {
+        self.reflect_toggle_full(b, true)
+    }
+
+    /// Transliteration of hashbrown's `reflect_toggle_full`. The real code compares element
+    /// pointers, which decrease as the bucket index grows, and for a zero-sized `T` every
+    /// bucket has the *same* element pointer; both are kept. Note what the real code does for
+    /// an insert into a bucket that lies before the iterator's next pending bucket of the
+    /// current group (or when that group has no pending bit left): nothing — it treats the
+    /// bucket as already yielded.
+    unsafe fn reflect_toggle_full(&mut self, b: &Bucket<T>, is_insert: bool) {
         let zst = mem::size_of::<T>() == 0;
         assert!(
             b.index < self.buckets && self.slots.as_ptr().add(b.index) == b.slot.as_ptr(),
-            "[ghost] reflect_remove: bucket is not in the iterator's table"
+            "[ghost] reflect_remove/reflect_insert: bucket is not in the iterator's table"
         );
         let idx = b.index;
         // `if b.as_ptr() > self.iter.data.as_ptr() { return }` — iterator already passed it
@@ -737,11 +805,15 @@ impl<T> RawIter<T> {
                 );
                 assert!(
                     (*b.slot.as_ptr()).full,
-                    "[debug-only] hashbrown reflect_remove: assert!(is_full(*ctrl)) — must be called before the removal, for a full bucket"
+                    "[debug-only] hashbrown reflect_remove: assert!(is_full(*ctrl)) — must be called before the removal (after the insert), for a full bucket"
                 );
             }
-            assert!(self.items > 0, "[ghost] reflect_remove: iterator item count underflows");
-            self.items -= 1;
+            if is_insert {
+                self.items += 1;
+            } else {
+                assert!(self.items > 0, "[ghost] reflect_remove: iterator item count underflows");
+                self.items -= 1;
+            }
             return;
         }
         // the iterator is at the bucket's group
@@ -760,10 +832,14 @@ impl<T> RawIter<T> {
             let was_full = self.mask & bit != 0;
             self.mask ^= bit;
             if cfg!(debug_assertions) {
-                assert!(was_full, "[debug-only] hashbrown reflect_remove: debug_assert_ne!(was_full, is_insert)");
+                assert!(was_full != is_insert, "[debug-only] hashbrown reflect_remove/insert: debug_assert_ne!(was_full, is_insert)");
             }
-            assert!(self.items > 0, "[ghost] reflect_remove: iterator item count underflows");
-            self.items -= 1;
+            if is_insert {
+                self.items += 1;
+            } else {
+                assert!(self.items > 0, "[ghost] reflect_remove: iterator item count underflows");
+                self.items -= 1;
+            }
         }
     }
 
